@@ -180,6 +180,10 @@ def gen_overlap(rng, seed, tier):
                 # the caller-side notifications of start()/stop() it is
                 # unspecified (the command in progress would have to re-check)
                 cmd = ["stop"]
+            if t == "END_REPLICATION" and rng.random() < 0.6:
+                # chaining the next replication (or cleaning up) from the end
+                # notification, on the run thread: must return, not hang
+                cmd = list(rng.choice([["cleanup"], ["initialize"], ["initialize"]]))
             lc.setdefault(t, []).append([rng.choice([1, 1, 2, 3]), cmd])
         case["listener_cmds"] = lc
     # the script
